@@ -841,11 +841,35 @@ def process(cases, res, tag):
             elif c.real_read != want:
                 res.violation(c.key, "read_scsv(save_scsv(data)) differs from the data with fill substitution: "
                               + _diff(want, c.real_read), rep)
+            elif c.stream in ("valid", "terse"):
+                bad = _written_cells_check(c)
+                if bad:
+                    res.violation(c.key + ":written_cells", "the file does not hold the missing marker exactly for the cells equal to the fill: " + bad, rep)
         elif c.expect == "scsv":
             if c.real_save != ("err", "SCSVError"):
                 got = c.real_save[1] if c.real_save[0] == "err" else "no error"
                 res.violation(f"{c.key}:{got}", f"single fault `{c.key}` is not refused with SCSVError (got {got})", rep)
     return cases
+
+
+def _written_cells_check(c):
+    """the clause `cells equal to a field's fill value are written as the missing marker`, read off the real file
+    (CSV part parsed with the csv module, no model involved)"""
+    text = c.real_save[1].decode("utf-8")
+    d = c.schema["delimiter"]
+    if "\r" in text or d in '"\n\r ':
+        return ""
+    lines = text.split("\n")
+    k = lines.index("---", 1)
+    rows = list(csv.reader(_pyio.StringIO("\n".join(lines[k + 1:])), delimiter=d))[1:]
+    m = c.schema["missing"]
+    for j, (f, col) in enumerate(zip(c.schema["fields"], c.data)):
+        t = f.get("type", "string")
+        for i, cell in enumerate(col):
+            want = m if (t != "boolean" and _is_fill(t, f.get("fill", ""), cell)) else str(cell)
+            if rows[i][j] != want:
+                return f"column {j} row {i}: file has {rows[i][j]!r}, expected {want!r}"
+    return ""
 
 
 def _short(r):
